@@ -13,6 +13,7 @@ from ..interp import (NOT_HANDLED, TOP, Closure, Ext, Hooks, Interp, Obj, guard,
 from ..model import AnalysisError, norm_stmt, walk_no_nested
 from ..report import Ctx
 from ..symnp import call_numpy
+from ..nphooks import Tagged
 
 EXPLANATION = (
     'R15.1: the per-trial columns the simulator writes (list-valued keys of DirectSimulation._results) are exactly '
@@ -37,6 +38,22 @@ def _analysis(ctx: Ctx):
 
 
 # ------------------------------------------------------------------- R15.1 / R15.2
+
+def groupby_calls(ami, fn):
+    """(function, call) for every .groupby(...) in fn or in a module-level helper of the same module that fn calls by
+    name (the grouping may live in a helper)."""
+    out = []
+    fns = [fn]
+    for c_ in ast.walk(fn):
+        if isinstance(c_, ast.Call) and isinstance(c_.func, ast.Name) and c_.func.id in ami.functions \
+                and ami.functions[c_.func.id] not in fns:
+            fns.append(ami.functions[c_.func.id])
+    for f_ in fns:
+        for n in ast.walk(f_):
+            if isinstance(n, ast.Call) and isinstance(n.func, ast.Attribute) and n.func.attr == 'groupby':
+                out.append((f_, n))
+    return out
+
 
 def _lists_in_subscript(node: ast.AST) -> Optional[List[str]]:
     """grouped_df[[a, b]] -> [a, b]"""
@@ -68,8 +85,14 @@ def _r151_152(ctx: Ctx) -> None:
                 a = n.args[0]
                 if isinstance(a, ast.Lambda) and 'concatenate' in ast.unparse(a):
                     concat = cols
+                elif isinstance(a, ast.Name) and a.id in ami.functions and 'concatenate' in ast.unparse(ami.functions[a.id]):
+                    concat = cols                     # a named function of the module that concatenates the group
                 elif isinstance(a, ast.Name) and a.id == 'list':
                     listed = cols
+                elif isinstance(a, ast.Constant) and a.value == 'sum':
+                    summed = cols
+                elif isinstance(a, ast.Constant) and a.value in ('first', 'last'):
+                    first = cols
     ctx.need(summed is not None and concat is not None and first is not None, 'R15.1', site,
              f'aggregate: column groups not recognised (sum={summed}, concat={concat}, first={first})')
     # writer side: list-valued keys of DirectSimulation._results
@@ -108,8 +131,14 @@ def _r151_152(ctx: Ctx) -> None:
         while isinstance(e, ast.Subscript):
             e = e.value
         if isinstance(e, ast.Name) and len(defs.get(e.id, [])) == 1:
+            d_ = defs[e.id][0]
+            if isinstance(d_, ast.Call) and isinstance(d_.func, ast.Name) and d_.func.id in ami.functions:
+                # a helper of the module that returns the grouping
+                return any(isinstance(r_, ast.Return) and r_.value is not None and any(
+                    isinstance(c, ast.Call) and isinstance(c.func, ast.Attribute) and c.func.attr == 'groupby'
+                    for c in ast.walk(r_.value)) for r_ in ast.walk(ami.functions[d_.func.id]))
             return any(isinstance(c, ast.Call) and isinstance(c.func, ast.Attribute) and c.func.attr == 'groupby'
-                       for c in ast.walk(defs[e.id][0]))
+                       for c in ast.walk(d_))
         return isinstance(e, ast.Call) and isinstance(e.func, ast.Attribute) and e.func.attr == 'groupby'
 
     def frame_kind(e, depth=0):
@@ -177,15 +206,24 @@ def _r151_152(ctx: Ctx) -> None:
     ctx.ob('R15.1', site_of(mi2, re_fn), "read_entry: n_trials = len(effective_error)", ok, 'n_trials is not the number of '
            'recorded trials', key='read_entry|n_trials')
     # R15.2 group-by key
-    gb = [n for n in ast.walk(fn) if isinstance(n, ast.Call) and isinstance(n.func, ast.Attribute) and n.func.attr == 'groupby']
-    ctx.need(len(gb) == 1, 'R15.2', site, 'groupby call not found')
-    g = gb[0]
+    gbs = groupby_calls(ami, fn)
+    ctx.need(len(gbs) == 1, 'R15.2', site, f'groupby call not found ({len(gbs)} candidates in aggregate and its helpers)')
+    gfn, g = gbs[0]
+    # the helper's parameters are bound to the arguments of its (single) call in aggregate
+    bind = {}
+    if gfn is not fn:
+        cs = [c_ for c_ in ast.walk(fn) if isinstance(c_, ast.Call) and isinstance(c_.func, ast.Name) and c_.func.id == gfn.name]
+        ctx.need(len(cs) == 1 and not cs[0].keywords, 'R15.2', site, f'call of {gfn.name} in aggregate not recognised')
+        bind = dict(zip([a.arg for a in gfn.args.args], cs[0].args))
     keys = None
-    if g.args and ast.unparse(g.args[0]) == 'self.INPUT_KEYS':
+    karg = g.args[0] if g.args else None
+    if isinstance(karg, ast.Name) and karg.id in bind:
+        karg = bind[karg.id]
+    if karg is not None and ast.unparse(karg) == 'self.INPUT_KEYS':
         a = aci.find_attr('INPUT_KEYS')
         keys = ast.literal_eval(a[1]) if a else None
-    elif g.args and isinstance(g.args[0], ast.List):
-        keys = ast.literal_eval(g.args[0])
+    elif isinstance(karg, ast.List):
+        keys = ast.literal_eval(karg)
     ctx.need(keys is not None, 'R15.2', site, 'group-by keys not recognised')
     want = {'code_str', 'error_model_str', 'decoder_str', 'error_rate'}
     ctx.ob('R15.2', site, 'group-by key covers code, noise model, decoder and error rate', want <= set(keys),
@@ -219,14 +257,59 @@ def _r151_152(ctx: Ctx) -> None:
     ctx.ob('R15.2', site_of(ami, (before or after)[0][1]), 'error_rate is rounded before it is used as a group-by key', bool(before),
            f'{norm_stmt(after[0][1]) if after else ""} comes after the groupby: error rates that differ by float noise (0.3 vs '
            f'0.1*3) form separate groups, each with part of the trials', key='Analysis.aggregate|rate-rounded-before-grouping')
-    asg = [n for n in ast.walk(fn) if isinstance(n, ast.Call) and isinstance(n.func, ast.Attribute) and n.func.attr == 'assign']
+    asg = [n for n in ast.walk(gfn) if isinstance(n, ast.Call) and isinstance(n.func, ast.Attribute) and n.func.attr == 'assign']
     ctx.need(len(asg) == 1, 'R15.2', site, 'assign(...) of the string keys not found')
+    frame = asg[0].func.value                       # the frame the keys are added to: self.raw (or the parameter bound to it)
+    frame_txt = ast.unparse(bind.get(frame.id, frame) if isinstance(frame, ast.Name) else frame)
+    pairs = []                                      # (new column, expression text with the frame spelled out)
     for k in asg[0].keywords:
-        base = k.arg[:-4] if k.arg.endswith('_str') else None
-        txt = ast.unparse(k.value).replace(' ', '').replace('"', "'")
+        if k.arg is not None:
+            v = k.value
+            if isinstance(frame, ast.Name) and frame.id in bind:
+                v = _subst_name(v, frame.id, bind[frame.id])
+            pairs.append((k.arg, ast.unparse(v)))
+            continue
+        # **keys with keys = {name: frame[source].astype('str') for name, source in TABLE.items()}, TABLE a literal
+        dd = k.value
+        if isinstance(dd, ast.Name):
+            ds = [n.value for n in ast.walk(gfn) if isinstance(n, ast.Assign) and len(n.targets) == 1
+                  and isinstance(n.targets[0], ast.Name) and n.targets[0].id == dd.id]
+            dd = ds[0] if len(ds) == 1 else dd
+        table = None
+        if isinstance(dd, ast.DictComp) and len(dd.generators) == 1 and isinstance(dd.generators[0].target, ast.Tuple) \
+                and len(dd.generators[0].target.elts) == 2 and not dd.generators[0].ifs \
+                and isinstance(dd.generators[0].iter, ast.Call) and isinstance(dd.generators[0].iter.func, ast.Attribute) \
+                and dd.generators[0].iter.func.attr == 'items' and isinstance(dd.generators[0].iter.func.value, ast.Name):
+            tv = ami.assigns.get(dd.generators[0].iter.func.value.id)
+            if isinstance(tv, ast.Dict):
+                try:
+                    table = ast.literal_eval(tv)
+                except ValueError:
+                    table = None
+        if not (isinstance(table, dict) and isinstance(dd.key, ast.Name) and all(isinstance(x, ast.Name) for x in dd.generators[0].target.elts)):
+            raise AnalysisError('R15.2', site_of(ami, asg[0]), f'assign(**{ast.unparse(k.value)}): string keys not recognised')
+        kn, vn = (x.id for x in dd.generators[0].target.elts)
+        for a_, b_ in table.items():
+            name = a_ if dd.key.id == kn else b_
+            v = _subst_name(_subst_name(dd.value, kn, ast.Constant(value=a_)), vn, ast.Constant(value=b_))
+            if isinstance(frame, ast.Name) and frame.id in bind:
+                v = _subst_name(v, frame.id, bind[frame.id])
+            pairs.append((name, ast.unparse(v)))
+    for name, txt_ in pairs:
+        base = name[:-4] if name.endswith('_str') else None
+        txt = txt_.replace(' ', '').replace('"', "'")
         ok = base is not None and txt == f"self.raw['{base}'].astype('str')"
-        ctx.ob('R15.2', site, f'{k.arg} is the string form of the full {base} input dictionary', ok,
-               f'{k.arg} = {ast.unparse(k.value)}', key=f'Analysis.aggregate|{k.arg}')
+        ctx.ob('R15.2', site, f'{name} is the string form of the full {base} input dictionary', ok,
+               f'{name} = {txt_}', key=f'Analysis.aggregate|{name}')
+
+
+def _subst_name(e, name, repl):
+    import copy
+
+    class T(ast.NodeTransformer):
+        def visit_Name(self, n):
+            return copy.deepcopy(repl) if n.id == name and isinstance(n.ctx, ast.Load) else n
+    return T().visit(copy.deepcopy(e))
 
 
 # ------------------------------------------------------------------- R15.3
@@ -386,7 +469,7 @@ def _frame_formulas(ctx: Ctx) -> None:
         return fn, outs[0].value, hooks
 
     def stores_of(df):
-        return {k: v for k, v in df.stores if isinstance(k, str)}
+        return {k: normalise_counts(m, v) for k, v in df.stores if isinstance(k, str)}
 
     # aggregate: n_fail
     def setup_agg(o, hooks):
@@ -433,6 +516,11 @@ def _frame_formulas(ctx: Ctx) -> None:
             return NOT_HANDLED
 
         def call(self, it_, func, args, kwargs, node, env):
+            from ..dfdomain import RowCount, RowIdx
+            if isinstance(func, Ext) and func.name == 'builtins.range' and len(args) == 1 and isinstance(args[0], RowCount):
+                return [RowIdx(args[0].df)]                    # for i in range(len(results)): the generic row position
+            if isinstance(func, Ext) and func.name == 'builtins.len' and len(args) == 1 and isinstance(args[0], DF):
+                return RowCount(args[0])
             if isinstance(func, Ext) and func.name in ('numpy.array', 'numpy.asarray', 'builtins.list') and args \
                     and isinstance(args[0], list) and len(args[0]) == 1 and isinstance(args[0][0], CT):
                 return args[0][0]                              # [f(x) for x in column] gathered into an array again
@@ -443,9 +531,18 @@ def _frame_formulas(ctx: Ctx) -> None:
 
     def rowwise(t):
         """columns of the results frame read per row"""
+        from ..dfdomain import RowIdx
         if isinstance(t, CT):
             if t.op == 'col' and isinstance(t.args[0], DF) and t.args[0].name == 'results':
                 return CT('col', entry, t.args[1])
+            # results[c].iloc[i] / .values[i] / .to_numpy()[i] at the generic row position i
+            if t.op == 'item' and isinstance(t.args[1], RowIdx) and isinstance(t.args[0], CT):
+                inner = t.args[0]
+                if inner.op in ('iloc', 'values'):
+                    inner = inner.args[0]
+                if isinstance(inner, CT) and inner.op == 'col' and isinstance(inner.args[0], DF) \
+                        and inner.args[0].name == 'results':
+                    return CT('col', entry, inner.args[1])
             return CT(t.op, *[rowwise(a) for a in t.args])
         return t
     hooks = HIter()
@@ -522,6 +619,53 @@ def _frame_formulas(ctx: Ctx) -> None:
         if ok is None:
             raise AnalysisError('R15.3', site, f'{what}: {detail}')
         ctx.ob('R15.3', site, what, ok, f'code computes {src}; {detail}', key=key, facts={'expr': src, 'how': detail})
+
+
+_COUNT_CALLS = {'int', 'sum', 'len', 'np.sum', 'np.count_nonzero', 'numpy.sum', 'numpy.count_nonzero', 'np.logical_and',
+                'np.logical_or', 'np.logical_not', 'np.invert', 'bool'}
+
+
+def _counting_vocabulary(body) -> bool:
+    for n in ast.walk(body):
+        if isinstance(n, ast.Call):
+            if ast.unparse(n.func) not in _COUNT_CALLS or n.keywords:
+                return False
+        elif not isinstance(n, (ast.Subscript, ast.Name, ast.Constant, ast.Attribute, ast.UnaryOp, ast.BinOp, ast.Invert, ast.Not,
+                                ast.BitAnd, ast.BitOr, ast.BitXor, ast.Add, ast.Sub, ast.Load, ast.Return, ast.Expr, ast.Module)):
+            return False
+    return True
+
+
+def normalise_counts(m, t):
+    """column.apply(f) where f (a lambda or a function of the library) counts the True entries of a boolean array is the
+    same column term as column.apply(sum): f built from elementwise boolean operators, sums/counts and +/- is linear in
+    (number of True, number of False), so three mixes and the empty array determine it."""
+    if not isinstance(t, CT):
+        return t
+    if t.op == 'apply' and isinstance(getattr(t, 'fn', None), Closure) and not getattr(t, 'kw', None) \
+            and isinstance(t.args[0], CT) and t.args[0].op == 'col':
+        f = t.fn.fn
+        body = f.body if isinstance(f, ast.Lambda) else ast.Module(body=[x for x in f.body if not (
+            isinstance(x, ast.Expr) and isinstance(x.value, ast.Constant))], type_ignores=[])
+        if _counting_vocabulary(body):
+            from .c03 import SymHooks
+            ok = True
+            for a, b in ((2, 3), (5, 1), (0, 4), (0, 0)):
+                arr = np.array([True] * a + [False] * b, dtype=bool)
+                it = Interp(m, SymHooks())
+                try:
+                    outs = it.explore(lambda: it.call(t.fn, [arr], {}, f, t.fn.env))
+                except Exception:
+                    ok = False
+                    break
+                if len(outs) != 1 or outs[0].kind != 'return' or not isinstance(outs[0].value, (int, np.integer)) \
+                        or isinstance(outs[0].value, bool) or int(outs[0].value) != a:
+                    ok = False
+                    break
+            if ok:
+                return CT('apply', t.args[0], 'sum')
+        return t
+    return CT(t.op, *[normalise_counts(m, a) for a in t.args]) if t.op not in ('apply',) else t
 
 
 def _rowwise_count(m, t, res):
@@ -615,6 +759,13 @@ def _provenance(fn) -> Dict[str, Set[Tuple]]:
                 return src_of(e.func.value)
             return {(f, None)}
         if isinstance(e, (ast.ListComp, ast.GeneratorExp)):
+            # [u for _, u in pairs]: component i of what the elements of `pairs` come from
+            if isinstance(e.elt, ast.Name) and len(e.generators) == 1 and isinstance(e.generators[0].target, ast.Tuple) \
+                    and isinstance(e.generators[0].iter, ast.Name):
+                names = [x.id if isinstance(x, ast.Name) else None for x in e.generators[0].target.elts]
+                if e.elt.id in names:
+                    i = names.index(e.elt.id)
+                    return {(c, i) if k is None else (c, k) for c, k in prov.get(e.generators[0].iter.id, set())}
             return src_of(e.elt)
         if isinstance(e, ast.Name):
             return set(prov.get(e.id, set()))
@@ -661,14 +812,50 @@ def _provenance(fn) -> Dict[str, Set[Tuple]]:
     return prov
 
 
+def _expand_helper_sources(ami, srcs, depth=0):
+    """(callee, component) of a helper function of panqec.analysis -> the sources of what that helper returns."""
+    known = {c for c, _ in SE_SOURCES} | {'get_word_error_rate', 'get_single_qubit_error_rate', 'get_standard_error'}
+    out = set()
+    for c, k in srcs:
+        g = ami.functions.get(c) if c not in known and c != 'expr' else None
+        if g is None or depth > 2:
+            out.add((c, k))
+            continue
+        p2 = _provenance(g)
+        rets = [n.value for n in ast.walk(g) if isinstance(n, ast.Return) and n.value is not None]
+        got = set()
+        for r in rets:
+            if isinstance(r, ast.Tuple) and isinstance(k, int) and k < len(r.elts):
+                got |= p2['__src_of__'](r.elts[k])
+            elif isinstance(r, ast.Tuple):
+                for e_ in r.elts:
+                    got |= p2['__src_of__'](e_)
+            else:
+                got |= p2['__src_of__'](r)
+        out |= _expand_helper_sources(ami, got, depth + 1) if got else {(c, k)}
+    return out
+
+
 def _r154(ctx: Ctx) -> None:
     ami, aci = _analysis(ctx)
     n_cols = 0
-    for mname in ('calculate_total_error_rates', 'calculate_word_error_rates', 'calculate_single_qubit_error_rates',
-                  'calculate_sector_thresholds'):
+    todo = ['calculate_total_error_rates', 'calculate_word_error_rates', 'calculate_single_qubit_error_rates',
+            'calculate_sector_thresholds']
+    # ... and the methods of the class they call through self (a step may live in a helper method)
+    for mname in list(todo):
+        f0 = aci.methods.get(mname)
+        for c_ in ast.walk(f0) if f0 is not None else ():
+            if isinstance(c_, ast.Call) and isinstance(c_.func, ast.Attribute) and isinstance(c_.func.value, ast.Name) \
+                    and c_.func.value.id == 'self' and c_.func.attr in aci.methods and c_.func.attr not in todo \
+                    and c_.func.attr not in ('log', 'calculate_thresholds'):
+                todo.append(c_.func.attr)
+    for mname in todo:
         fn = aci.methods.get(mname)
         ctx.need(fn is not None, 'R15.4', site_of(ami, aci.node), f'Analysis.{mname} not found')
         prov = _provenance(fn)
+        aliases = {'self._results'} | {n.targets[0].id for n in ast.walk(fn) if isinstance(n, ast.Assign)
+                                       and len(n.targets) == 1 and isinstance(n.targets[0], ast.Name)
+                                       and ast.unparse(n.value) == 'self._results'}
         # local string labels  p_se_label = f'p_se_{sector}'
         labels = {}
         for n in ast.walk(fn):
@@ -676,7 +863,7 @@ def _r154(ctx: Ctx) -> None:
                 labels[n.targets[0].id] = ''.join(v.value if isinstance(v, ast.Constant) else '{}' for v in n.value.values)
         for n in ast.walk(fn):
             if isinstance(n, ast.Assign) and isinstance(n.targets[0], ast.Subscript) \
-                    and ast.unparse(n.targets[0].value) == 'self._results':
+                    and ast.unparse(n.targets[0].value) in aliases:
                 sl = n.targets[0].slice
                 col = sl.value if isinstance(sl, ast.Constant) else labels.get(getattr(sl, 'id', ''), None)
                 if not isinstance(col, str):
@@ -685,7 +872,7 @@ def _r154(ctx: Ctx) -> None:
                 is_est = col.endswith('_est') or '_est_' in col
                 if not (is_se or is_est):
                     continue
-                srcs = prov['__src_of__'](n.value)
+                srcs = _expand_helper_sources(ami, prov['__src_of__'](n.value))
                 n_cols += 1
                 if not srcs:
                     raise AnalysisError('R15.4', site_of(ami, n), f"Analysis.{mname}: provenance of column '{col}' not followed "
@@ -819,32 +1006,116 @@ def _r155(ctx: Ctx) -> None:
 
 # ------------------------------------------------------------------- R15.6
 
+class _FSrc:
+    """A byte/text source in the abstract file system of R15.6: ('file', path) | ('zip', archive, member) | ('gz', src)."""
+
+    def __init__(self, src, kind='handle'):
+        self.src, self.kind = src, kind
+
+    def __repr__(self):
+        return f'{self.kind}{self.src!r}'
+
+    def pqv_getattr(self, name):
+        me = self
+
+        class _C:
+            def __init__(s_, f):
+                s_.f = f
+
+            def pqv_call(s_, *a, **k):
+                return s_.f(*a, **k)
+        if self.kind == 'zip' and name == 'open':
+            return _C(lambda member, *a, **k: _FSrc(('zip', me.src, member)))
+        if self.kind == 'zip' and name in ('close',):
+            return _C(lambda *a, **k: None)
+        if self.kind == 'handle' and name == 'read':
+            return _C(lambda *a, **k: _FSrc(me.src, 'bytes'))
+        if self.kind == 'bytes' and name == 'decode':
+            return _C(lambda *a, **k: _FSrc(me.src, 'text'))
+        if name in ('close', '__exit__', '__enter__'):
+            return _C(lambda *a, **k: me)
+        return TOP
+
+
+def _r156_read_files(ctx: Ctx, m, ami, aci, fn, site) -> None:
+    """read_files is interpreted on four file locations (two members of a zip archive, one of them gzipped; a plain and
+    a gzipped file): every location yields the entries read_entry makes of the JSON decoded from THAT file, once, in
+    order, labelled with its nominal path."""
+    frames = []
+
+    class H(Hooks):
+        def call(self, it, func, args, kwargs, node, env):
+            if isinstance(func, Ext):
+                last = func.name.split('.')[-1]
+                if last == 'ZipFile' and args:
+                    return _FSrc(args[0], 'zip')
+                if func.name == 'gzip.open' and args and isinstance(args[0], _FSrc):
+                    return _FSrc(('gz', args[0].src))
+                if func.name == 'gzip.open' and args and isinstance(args[0], str):
+                    return _FSrc(('gz', ('file', args[0])))
+                if func.name == 'builtins.open' and args and isinstance(args[0], str):
+                    return _FSrc(('file', args[0]))
+                if func.name in ('json.load', 'json.loads') and args and isinstance(args[0], _FSrc):
+                    return Tagged('data', args[0].src)
+                if func.name == 'os.path.abspath' and args and isinstance(args[0], str):
+                    return args[0] if args[0].startswith('ABS/') else 'ABS/' + args[0]
+                if func.name == 'os.path.join' and all(isinstance(a, str) for a in args):
+                    return '/'.join(args)
+                if last == 'DataFrame':
+                    frames.append(list(args[0]) if args and isinstance(args[0], list) else args[0] if args else None)
+                    return DF('raw')
+                if func.name == 'builtins.print':
+                    return None
+            if isinstance(func, Closure) and getattr(func.fn, 'name', '') == 'load_json' and args:
+                p_ = args[0]
+                gz = isinstance(p_, str) and p_.endswith('.gz')
+                return Tagged('data', ('gz', ('file', p_)) if gz else ('file', p_))
+            if isinstance(func, Closure) and getattr(func.fn, 'name', '') == 'read_entry':
+                b = dict(zip(('data', 'results_file'), args))
+                b.update(kwargs)
+                return [Tagged('entry', b.get('data'), b.get('results_file'))]
+            return NOT_HANDLED
+    locations = [('Z.zip', 'a.json.gz'), ('Z.zip', 'b.json'), 'c.json', 'd.json.gz']
+    it = Interp(m, H())
+
+    def thunk():
+        frames.clear()
+        o = Obj(aci, 'analysis')
+        o.fields.update({'verbose': False, 'file_locations': list(locations)})
+        it.call_closure(Closure(fn, ami, aci), [], {}, fn, self_obj=o)
+        return list(frames)
+    outs = guard('R15.6', ami, fn)(lambda: it.explore(thunk))
+    ctx.need(len(outs) == 1 and outs[0].kind == 'return' and len(outs[0].value) == 1 and isinstance(outs[0].value[0], list),
+             'R15.6', site, f'read_files: not evaluated on the abstract file locations ({outs!r})')
+    got = outs[0].value[0]
+    if 'TOP' in repr(got):
+        raise AnalysisError('R15.6', site, f'read_files: entries not tracked ({got!r})')
+
+    def norm(src):
+        if isinstance(src, tuple) and src and src[0] == 'file':
+            return ('file', src[1][4:] if isinstance(src[1], str) and src[1].startswith('ABS/') else src[1])
+        if isinstance(src, tuple) and src and src[0] == 'gz':
+            return ('gz', norm(src[1]))
+        if isinstance(src, tuple) and src and src[0] == 'zip':
+            return ('zip',) + tuple(x[4:] if isinstance(x, str) and x.startswith('ABS/') else x for x in src[1:])
+        return src
+    want = [(('gz', ('zip', 'Z.zip', 'a.json.gz')), 'ABS/Z.zip/a.json.gz'), (('zip', 'Z.zip', 'b.json'), 'ABS/Z.zip/b.json'),
+            (('file', 'c.json'), 'ABS/c.json'), (('gz', ('file', 'd.json.gz')), 'ABS/d.json.gz')]
+    have = [(norm(e.args[0].args[0]) if isinstance(e, Tagged) and e.tag == 'entry' and isinstance(e.args[0], Tagged)
+             and e.args[0].tag == 'data' else repr(e), e.args[1] if isinstance(e, Tagged) and e.tag == 'entry' else None)
+            for e in got]
+    ok = have == want
+    ctx.ob('R15.6', site, 'read_files: every file, whatever its container, goes through read_entry exactly once', ok,
+           f'entries come from {have!r}; expected one per location, in order, decoded from that file and labelled with its '
+           f'nominal path: {want!r}', key='read_files|read_entry', facts=[repr(h) for h in have])
+
+
 def _r156(ctx: Ctx) -> None:
     m = ctx.model
     ami, aci = _analysis(ctx)
     fn = aci.methods['read_files']
     site = site_of(ami, fn)
-    loops = [n for n in ast.walk(fn) if isinstance(n, ast.For)]
-    ctx.need(len(loops) == 1, 'R15.6', site, 'read_files loop not found')
-    loop = loops[0]
-    # every path through the loop body assigns `data` from a JSON load and then calls read_entry(data, ...)
-    calls = [n for n in ast.walk(loop) if isinstance(n, ast.Call) and ast.unparse(n.func) == 'read_entry']
-    ok = len(calls) == 1 and calls[0].args and ast.unparse(calls[0].args[0]) == 'data' and \
-        any(isinstance(s, ast.AugAssign) and calls[0] in ast.walk(s) for s in loop.body)
-    ctx.ob('R15.6', site, 'read_files: every file, whatever its container, goes through read_entry exactly once', ok,
-           'read_entry(data, ...) is not applied unconditionally at the end of the loop body', key='read_files|read_entry')
-    loads = []
-    for n in ast.walk(loop):
-        if isinstance(n, ast.Assign) and isinstance(n.targets[0], ast.Name) and n.targets[0].id == 'data':
-            loads.append(n.value)
-    ctx.need(len(loads) >= 2, 'R15.6', site, 'read_files: container branches not recognised')
-    for v in loads:
-        f = ast.unparse(v.func) if isinstance(v, ast.Call) else ''
-        okf = f in ('json.load', 'json.loads', 'load_json')
-        if not okf:
-            raise AnalysisError('R15.6', site_of(ami, v), f'read_files: data loaded by an unrecognised call {ast.unparse(v)}')
-        ctx.ob('R15.6', site_of(ami, v), f'read_files: branch decodes JSON into `data` ({f})', True, '',
-               key=f'read_files|load[{ast.unparse(v)}]')
+    _r156_read_files(ctx, m, ami, aci, fn, site)
     # read_entry on nested (merged) lists
     rmi, rfn = m.func('panqec.analysis', 'read_entry')
 
@@ -990,7 +1261,7 @@ def run(ctx: Ctx) -> None:
     ctx.rule('R15.3', 'estimator / standard error / word error rate formulas (sympy normal forms)', floor=11)
     ctx.rule('R15.4', 'every *_se column derives from the standard-error function, estimates do not', floor=8)
     ctx.rule('R15.5', 'sector counts use the codespace mask and the [X|Z] effect layout', floor=5)
-    ctx.rule('R15.6', 'all containers end in read_entry; merged lists are flattened', floor=5)
+    ctx.rule('R15.6', 'all containers end in read_entry; merged lists are flattened', floor=4)
     ctx.trust('pandas groupby/sum/aggregate/first semantics; sympy simplification (python3-vt)')
     with ctx.part():
         _r151_152(ctx)
@@ -1007,3 +1278,9 @@ def run(ctx: Ctx) -> None:
     from .c06 import class_mutable_rule
     with ctx.part():
         class_mutable_rule(ctx, 'R15.6', ['Analysis'])
+    with ctx.part():
+        # what an analysis reports is computed from the files it is given: nothing kept at module level between two
+        # analyses (a table of parsed files, a default argument), except a memo whose key determines the value
+        from .c06 import global_state_rule
+        aci_ = ctx.model.cls('Analysis')
+        global_state_rule(ctx, 'R15.6', list(aci_.methods.values()), 'results are analysed')
